@@ -245,6 +245,39 @@ fn proof_case<G: CurveTag>(bytes: &[u8], col: &mut Collector, prefixes: bool) ->
             }
         }
     }
+    // several points outside the subgroup at once, with small-order components that cancel
+    // (a decoder that validates an aggregate instead of every element would let them through)
+    if !tors.is_empty() {
+        let mut pairs: Vec<(usize, usize)> = vec![];
+        for a in 0..npts {
+            for b in (a + 1)..npts {
+                let same_list = (a >= 11 && b >= 11) && ((a < 11 + k) == (b < 11 + k));
+                if same_list || (a + 3 * b + bytes.len()) % 7 == 0 {
+                    pairs.push((a, b));
+                }
+            }
+        }
+        for (pi, (a, b)) in pairs.iter().enumerate().take(40) {
+            let t = tors[pi % tors.len()];
+            let pa = mirror.clone().point_mut(*a).clone();
+            let pb = mirror.clone().point_mut(*b).clone();
+            let qa = (pa.into_group() + t.into_group()).into_affine();
+            let qb = (pb.into_group() - t.into_group()).into_affine();
+            if qa.is_zero() || qb.is_zero() {
+                continue;
+            }
+            let mut bts = e.clone();
+            let (mut ea, mut eb) = (vec![], vec![]);
+            qa.serialize_compressed(&mut ea).unwrap();
+            qb.serialize_compressed(&mut eb).unwrap();
+            let (oa, ob) = (point_offset::<G>(*a, k), point_offset::<G>(*b, k));
+            bts[oa..oa + G::PT].copy_from_slice(&ea);
+            bts[ob..ob + G::PT].copy_from_slice(&eb);
+            crafted(format!("points {} := P+T and {} := P-T (both outside the prime-order subgroup, small-order parts cancel)", mirror.point_name(*a), mirror.point_name(*b)), bts)?;
+            n_crafted += 1;
+            col.class("cancelling-torsion-pair");
+        }
+    }
     col.evals_add(n_crafted);
     col.class(&format!("k={}", k));
     if shape.n2 > 0 {
